@@ -15,6 +15,8 @@ Rules (DESIGN.md §4 C20):
 """
 import ast
 
+from sa.ctorflow import wire
+
 from sa.astutil import field_of, kwargs_of, dump, where, is_const, walk_no_nested
 from sa.model import AnalysisError, body_nodoc
 from sa.order import enumerate_paths, Event, calls_in_order, names
@@ -717,3 +719,4 @@ def run(prog, rep, tier):
                     continue
                 rep.unrec("R4-readonly", f.qualname, "read of %s in a context not modelled: %s" % (fld, dump(par)[:80]))
     rep.extra["start_reads"] = n_reads
+    wire(prog, rep, "C20", 1, 14)
